@@ -176,17 +176,28 @@ def check_c11(pid, tier, seed, replay):
     cases, n = mc_dbg(ck, 3 if quick else 4, "{1, 2, 3, 4, 5, 6, 7, 8}")
     all_lines = [l for l in open(cases).read().split("\n") if l.strip()]
     rng.shuffle(all_lines)
+    if quick and len(all_lines) > 8000:
+        ck.cov["vacuity"]["R_sampled_of"] = [8000, len(all_lines)]
+        all_lines = all_lines[:8000]
     for k in range(0, len(all_lines), 4000):
         part = os.path.join(os.path.dirname(cases), "part.json")
         open(part, "w").write("\n".join(all_lines[k:k + 4000]) + "\n")
         validate_sessions(ck, run_cli("dbg", part, "R"), 14, describe_dbg, "R", "dbg")
         if ck.enough():
             return ck.finish()
-    ck.cov["exhaustive"] = True
-    # one command deeper on the two shortest looping programs (a back edge to the first command)
-    if quick:
-        cases, n = mc_dbg(ck, 4, "{7, 8}")
-        validate_sessions(ck, run_cli("dbg", cases, "R4"), 14, describe_dbg, "R4", "dbg")
+    ck.cov["exhaustive"] = "R_sampled_of" not in ck.cov["vacuity"]
+    # deeper on the two shortest looping programs (a back edge to the first command): every script of
+    # 4 and 5 commands over next / previous / state / run
+    import itertools
+    P7 = [M.C(0, 1, 3, M.H(5)), M.C(1, 1, 3, M.H(5))]
+    P8 = [M.C(0, 71, 1, M.H(2)), M.C(1, 1, 1), M.C(0, 72, 1, M.H(2)), M.C(1, 1, 1, M.H(13))]
+    deep = [{"prog": p, "script": [[c] for c in sc]} for p in (P7, P8) for k in ((4,) if (quick and p is P8) else (4, 5))
+            for sc in itertools.product("npsr", repeat=k)]
+    part = os.path.join(os.path.dirname(cases), "deep.json")
+    M.write_cases(part, deep)
+    validate_sessions(ck, run_cli("dbg", part, "R-deep"), 14, describe_dbg, "R-deep", "dbg")
+    if ck.enough():
+        return ck.finish()
     with open(cases) as f:
         f.readline()
         c = json.loads(f.readline())
@@ -204,12 +215,17 @@ def check_c11(pid, tier, seed, replay):
         p = M.print_cps([65]) + M.print_cps([ws]) + M.print_cps([ws], 2) + M.print_cps([66, ws]) + M.print_cps([ws, ws], 2)
         tc.append({"prog": p, "script": [["n"]] * len(p) })
         tc.append({"prog": p, "script": [["b", len(M.print_cps([65]) + M.print_cps([ws]))], ["r"], ["s"], ["r"], ["s"]]})
+    # a lot of output within one step / one run segment (buffer sizes), multi-byte characters throughout
+    for copies, stream in ((341, 1), (342, 2)):
+        p = M.print_cps([65]) + M.push_value(0xAC00) + [M.C(5, copies, stream)]
+        tc.append({"prog": p, "script": [["n"]] * len(p) + [["s"]]})
+        tc.append({"prog": p, "script": [["r"], ["s"]]})
     work = tmpdir("c11_T")
     cpath = os.path.join(work, "cases.json")
     M.write_cases(cpath, tc)
     validate_sessions(ck, run_cli("dbg", cpath, "T"), 14, describe_dbg, "T", "dbg")
     ck.sample({"program": M.prog_text(tc[5]["prog"]), "script": script_str(tc[5]["script"])[:300]})
-    ck.cov["rule"] = "R: every command sequence up to the bound on six programs (exhaustive); T: seeded programs x scripts of 5-300 commands"
+    ck.cov["rule"] = "R: every command sequence up to the bound on eight programs (quick tier: a seeded sample of 8000, see vacuity) and every script of 4-5 commands over n/p/s/r on two looping programs; T: seeded programs x scripts of 5-300 commands"
     return ck.finish()
 
 
@@ -307,6 +323,9 @@ def check_c12(pid, tier, seed, replay):
         for stream in (1, 2):
             tc.append({"lines": [{"kind": "code", "cmds": M.print_cps([65])}, {"kind": "code", "cmds": M.print_cps([ws], stream)},
                                  {"kind": "code", "cmds": M.print_cps([ws, ws]) + M.print_cps([ws], 2)}, {"kind": "code", "cmds": M.print_cps([66, ws])}]})
+    for copies, stream in ((341, 1), (342, 2)):
+        p = M.push_value(0xAC00) + [M.C(5, copies, stream)]
+        tc.append({"lines": [{"kind": "code", "cmds": M.print_cps([65])}, {"kind": "code", "cmds": p}]})
     work = tmpdir("c12_T")
     cpath = os.path.join(work, "cases.json")
     M.write_cases(cpath, tc)
